@@ -661,7 +661,14 @@ class PrecipitateBase(GenericModel):
                 continue
             self._precBetaTemp[p] = betaComp
             Y.drivingForce[0,p] = volDG
+            # Y holds the terms of the previous calculation, so with a negative driving force, set the nucleation terms to 0
+            # (no nucleation barrier, no impingement and no nucleation rate), which is what nucleationBarrier and the beta functions give
             if volDG < 0:
+                Y.Rcrit[0,p] = 0
+                Y.Gcrit[0,p] = 0
+                Y.impingement[0,p] = 0
+                Y.nucRate[0,p] = 0
+                Y.Rnuc[0,p] = 0
                 continue
 
             # Critical Gibbs free energy and radius at nucleation barrier
@@ -678,6 +685,11 @@ class PrecipitateBase(GenericModel):
             
             # If impingement is 0, then skip rest of calculations (no nucleation rate)
             if beta == 0:
+                Y.Rcrit[0,p] = Rcrit
+                Y.Gcrit[0,p] = Gcrit
+                Y.impingement[0,p] = 0
+                Y.nucRate[0,p] = 0
+                Y.Rnuc[0,p] = 0
                 continue
 
             # Zeldovich factor
